@@ -69,3 +69,15 @@ Proof. exact rule_global_const_not_masked. Qed.
 Theorem C03_bad_invocation_not_masked : forall bs b,
   In b bs -> fb_walk (fb_defs (stream bs)) [] b <> [] -> rule_fb_call (stream bs) <> [].
 Proof. exact rule_fb_call_not_masked. Qed.
+
+(* a reference to an undeclared type is reported whatever else the library holds -- no other reference, declared or not,
+   hides it (only a declaration of that very name cures it: [resolve1] is then no longer RUndeclared) *)
+Theorem C03_undeclared_type_not_masked : forall fs ty pos, NoDup (map fst (decls fs)) -> no_rtodo (decls fs) fs ->
+  In (TInit IkLate ty pos) fs -> resolve1 (decls fs) ty = RUndeclared ->
+  exists ds, xform_type_init fs = inr ds /\ In (P_UndeclaredUnknownType, pos) ds.
+Proof. exact xform_type_init_reports. Qed.
+
+(* two declarations of one type or function block name are diagnosed (P0020), never collapsed into one *)
+Theorem C03_duplicate_type_diagnosed : forall fs, ~ NoDup (map fst (decls fs)) ->
+  exists d, xform_type_init fs = inr [d] /\ fst d = P_DefinitionNameDuplicated.
+Proof. exact xform_type_init_duplicate. Qed.
